@@ -249,7 +249,7 @@ def census(repo):
                     mirrored[fname] = {"impls": [h for h, _ in bodies], "copies": len(bodies),
                                        "equal": len(bodies) == 2 and bodies[0][1] == bodies[1][1]}
     sites.sort(key=lambda d: (d["file"], d["fn"], d["kind"], d["text"]))
-    return {"panic_sites": sites, "mirrored": mirrored, "state": state}
+    return {"panic_sites": sites, "mirrored": mirrored, "state": state, "deps": deps_census(repo)}
 
 
 def key(d):
@@ -273,6 +273,15 @@ def compare(cur, ref):
             diffs.append("LeastSquaresProblem::%s: expected %d impls (sequential, parallel), found %s" % (fname, want["copies"], got and got["copies"]))
         elif want["equal"] and not got["equal"]:
             diffs.append("LeastSquaresProblem::%s differs between the sequential and the parallel impl (the model has one definition for both)" % fname)
+    if "deps" in ref and "deps" in cur:
+        for k, v in ref["deps"]["lock"].items():
+            if cur["deps"]["lock"].get(k) != v:
+                diffs.append("dependency %s is pinned to %s in Cargo.lock, the model was transcribed from / calibrated against %s" % (k, cur["deps"]["lock"].get(k), v))
+        for k, v in ref["deps"]["files"].items():
+            if cur["deps"]["files"].get(k) != v:
+                diffs.append("third-party source %s differs from the one Core/LM.lean transcribes (sha256 %s, reviewed %s)" % (k, cur["deps"]["files"].get(k), v))
+        if ref["deps"].get("features_parallel") != cur["deps"].get("features_parallel"):
+            diffs.append("cargo feature `parallel` changed: %s (reviewed: %s)" % (cur["deps"].get("features_parallel"), ref["deps"].get("features_parallel")))
     for ent in ref.get("state", []):
         got = cur.get("state", {}).get(ent["rust"])
         if got is None:
@@ -294,6 +303,32 @@ def compare(cur, ref):
         if ent["lean"] != "-" and lm is None and "lean_state" in cur:
             diffs.append("Lean structure %s not found by FieldCensus.lean" % ent["lean"])
     return diffs
+
+
+def deps_census(repo):
+    """the third-party code the model transcribes (levenberg-marquardt's lm.rs) or treats as an oracle
+    (nalgebra's SVD / inverse, distrs' quantile): versions pinned in Cargo.lock, Cargo.toml requirements
+    and the SHA-256 of lm.rs / trust_region.rs... as found in the cargo registry"""
+    import glob, hashlib
+    out = {"lock": {}, "files": {}}
+    try:
+        lock = open(os.path.join(repo, "Cargo.lock")).read()
+    except OSError:
+        lock = ""
+    for name in ("levenberg-marquardt", "nalgebra", "distrs", "rayon"):
+        m = re.search(r'name = "%s"\s+version = "([^"]+)"' % re.escape(name), lock)
+        out["lock"][name] = m.group(1) if m else None
+    ver = out["lock"].get("levenberg-marquardt")
+    if ver:
+        for rel in ("src/lm.rs", "src/trust_region.rs", "src/qr.rs", "src/problem.rs"):
+            hits = sorted(glob.glob(os.path.expanduser("~/.cargo/registry/src/*/levenberg-marquardt-%s/%s" % (ver, rel))))
+            out["files"]["levenberg-marquardt/" + rel] = hashlib.sha256(open(hits[0], "rb").read()).hexdigest() if hits else None
+    try:
+        toml = open(os.path.join(repo, "Cargo.toml")).read()
+        out["features_parallel"] = norm(re.search(r"parallel\s*=\s*\[[^\]]*\]", toml).group(0)) if re.search(r"parallel\s*=\s*\[", toml) else None
+    except OSError:
+        out["features_parallel"] = None
+    return out
 
 
 def lean_state(lean_dir):
